@@ -421,7 +421,7 @@ Qed.
 (* examples: the hypotheses are satisfiable; anchors from the documentation *)
 Example dow_2018_02_15 : dow (mkEpoch [VInt 2018; VInt 2; VInt 15]) = VInt 4 /\ jdn 2018 2 15 = 2458165.
 Proof. split; vm_compute; reflexivity. Qed.
-Example dow_names : Epoch_dow B0 (mkEpoch [VInt 2018; VInt 7; VFloat 15.9%float]) (VBool true) = VStr "Sunday".
+Example dow_names : Epoch_dow B0 (mkEpoch [VInt 2018; VInt 7; VFloat 15.5%float]) (VBool true) = VStr "Sunday".
 Proof. vm_compute. reflexivity. Qed.
 Example reform_step : next 1582 10 4 = (1582, 10, 15) /\ valid 1582 10 4 = true.
 Proof. split; reflexivity. Qed.
